@@ -90,7 +90,10 @@ class VGen(Gen):
             if k == "Choices":
                 vs = [self.atom(ty, special=False) for _ in range(r.choice([1, 2, 4]))]
                 return {"k": k, "pid": pid, "vs": self.distinct(vs)}
-            # MultipleOf: non-zero factors only
+            # MultipleOf: non-zero factors, except where the stream asks for the zero factor (finding D28)
+            if getattr(self, "zero_factor_rate", 0.0) and self.chance(self.zero_factor_rate):
+                z = {"int": I(0), "float": F(False, 0, 0), "decimal": D(False, 0, 0)}[ty]
+                return {"k": k, "pid": pid, "v": z}
             if ty == "int":
                 return {"k": k, "pid": pid, "v": I(r.choice([1, 2, 3, -2, 5]))}
             if ty == "float":
